@@ -14,5 +14,5 @@ import ThriftVerif.Facts.ExpectCompile
 #print axioms ThriftVerif.Properties.C07.roots_order_independent_partial
 #print axioms ThriftVerif.Properties.C07.link_order_dependent
 #print axioms ThriftVerif.Properties.C07.acceptance_order_dependent
-#print axioms ThriftVerif.Properties.C07.enum_item_not_cast
+#print axioms ThriftVerif.Properties.C07.enum_item_cast
 #print axioms ThriftVerif.Facts.ExpectCompile.sites_covered
